@@ -2,7 +2,7 @@
  * vbi_decode() and prints the events each reception raised and whether the sentinel page is
  * still cached.  No expectation lives here.
  * stdin:  R | T (transmit the sentinel page 150) | V cni pil | 1 cni mjd utc lto | 2 cni pil
- *         N name | W b0 b1
+ *         N name | L call-letters | W b0 b1
  */
 #include <stdio.h>
 #include <stdlib.h>
@@ -34,8 +34,8 @@ static void handler(vbi_event *ev, void *ud)
 	case VBI_EVENT_NETWORK:
 	case VBI_EVENT_NETWORK_ID: {
 		vbi_network *n = &ev->ev.network;
-		add("%s{\"t\":\"%s\",\"nuid\":%u,\"cni_vps\":%d,\"cni_8301\":%d,\"cni_8302\":%d,\"name\":\"%.20s\"}", evn ? "," : "",
-		    ev->type == VBI_EVENT_NETWORK ? "NETWORK" : "NETWORK_ID", n->nuid, n->cni_vps, n->cni_8301, n->cni_8302, (char *) n->name);
+		add("%s{\"t\":\"%s\",\"nuid\":%u,\"cni_vps\":%d,\"cni_8301\":%d,\"cni_8302\":%d,\"name\":\"%.20s\",\"call\":\"%.20s\"}", evn ? "," : "",
+		    ev->type == VBI_EVENT_NETWORK ? "NETWORK" : "NETWORK_ID", n->nuid, n->cni_vps, n->cni_8301, n->cni_8302, (char *) n->name, (char *) n->call);
 		break;
 	}
 	case VBI_EVENT_PROG_ID: {
@@ -123,13 +123,14 @@ int main(void)
 			enc_8302(s.data, a, b, 1, 0, 1, 2, 1, 0x42);
 			feed(&s); report();
 			break;
+		case 'L':       /* XDS network call letters (Channel class, type 2) */
 		case 'N': {
 			char name[64];
 			unsigned sum, i, n;
 			if (sscanf(line + 1, "%63s", name) != 1) break;
 			n = strlen(name);
 			s.id = VBI_SLICED_CAPTION_525; s.line = 284;
-			s.data[0] = par(0x05); s.data[1] = par(0x01); sum = 0x05 + 0x01;
+			s.data[0] = par(0x05); s.data[1] = par(line[0] == 'L' ? 0x02 : 0x01); sum = 0x05 + (line[0] == 'L' ? 0x02 : 0x01);
 			feed(&s);
 			for (i = 0; i < n; i += 2) {
 				unsigned c1 = name[i], c2 = i + 1 < n ? name[i + 1] : 0;
